@@ -502,3 +502,42 @@ def run_e2e(req):
 
 
 HANDLERS["knn_e2e"] = run_e2e
+
+
+def run_cut(req):
+    from opfython.models.unsupervised import UnsupervisedOPF
+    cfg = req["cfg"]
+    n, k, branch = cfg["n"], cfg["k"], cfg["branch"]
+    D = [list(map(float, r)) for r in req["D"]]
+    opf = UnsupervisedOPF(min_k=1, max_k=k)
+    if branch == "pre":
+        opf.pre_computed_distance = True
+        opf.pre_distances = np.array(D)
+    else:
+        opf.distance_fn = lambda a, b: D[int(a[0])][int(b[0])]
+    g, _ = _graph(branch, n, D)
+    opf.subgraph = g
+    for i in range(n):
+        g.nodes[i].adjacency = [float(a) for a in req["adjs"][i]]
+        g.nodes[i].cluster_label = int(req["clus"][i])
+    g.n_clusters = req["ncl"]
+    cut = float(opf._normalized_cut(k))
+    total = 0.0
+    for l in range(req["ncl"]):
+        internal = external = 0.0
+        for i in range(n):
+            if req["clus"][i] != l:
+                continue
+            for j in req["adjs"][i]:
+                if D[i][j] > 0:
+                    if req["clus"][j] == l:
+                        internal += 1 / D[i][j]
+                    else:
+                        external += 1 / D[i][j]
+        if internal + external > 0:
+            total += external / (internal + external)
+    bad = [] if math.isclose(cut, total, rel_tol=1e-9, abs_tol=1e-12) else ["normalised-cut-matches-its-definition"]
+    return dict(obs=dict(cut=cut, want=total), violated=bad)
+
+
+HANDLERS["knn_cut"] = run_cut
